@@ -415,7 +415,10 @@ class Qube(object):
         self._truth_if_any_ = False
         self._truth_if_all_ = False
 
-        # Fill in the default
+        # Fill in the default; one given as a Qube is represented by its values
+        if isinstance(default, Qube):
+            default = default._values_
+
         if default is not None and np.shape(default) == item:
             pass
 
